@@ -395,7 +395,11 @@ func (e *Engine) havocShallow(st *State, args []Val) {
 						n++
 						addr2 := addr
 						_ = addr2
-						preds = append(preds, pred{heapFor(k, lt), func(a string) string { return "(= " + a + " " + addr + ")" }})
+						ptr := v.T
+						preds = append(preds, pred{heapFor(k, lt), func(a string) string {
+							// (a nil pointer has no pointee: selectors of null are unspecified terms and must not name a cell)
+							return "(and (not (= " + ptr + " null)) (= " + a + " " + addr + "))"
+						}})
 					})
 					if n > 0 && n <= 64 {
 						// slices inside the pointee: their elements too
